@@ -94,23 +94,39 @@ def Statement_orderby_spec : Prop :=
     (evalOrderBy keys rows).Perm rows ∧
     (evalOrderBy keys rows).Pairwise (fun a b => sparqlPrecedes keys b a = false)
 
-/-- every sort key value is one on which rdflib's literal comparison is consistent
-    (numeric datatype URIs sort between xsd:boolean and xsd:string) -/
-def KeysOk (keys : List (Expr × Bool)) (rows : List Row) : Prop :=
-  ∀ k ∈ keys, ∀ r ∈ rows, okKey (evalE k.1 r) = true
+/-- every sort key value is one on which rdflib's literal comparison is consistent (`okKey`, Spec.lean): either
+    no key is an xsd:date / xsd:dateTime and the numeric datatype URIs sort between xsd:boolean and xsd:string (all
+    but xsd:unsigned*), or dates are present and the numeric datatype URIs sort between xsd:dateTime and xsd:string
+    (all but xsd:byte and xsd:unsigned*) -/
+def KeysOkAt (wd : Bool) (keys : List (Expr × Bool)) (rows : List Row) : Prop :=
+  ∀ k ∈ keys, ∀ r ∈ rows, okKey wd (evalE k.1 r) = true
+
+def KeysOk (keys : List (Expr × Bool)) (rows : List Row) : Prop := KeysOkAt false keys rows ∨ KeysOkAt true keys rows
+
+instance (wd : Bool) (keys : List (Expr × Bool)) (rows : List Row) : Decidable (KeysOkAt wd keys rows) := by
+  unfold KeysOkAt; infer_instance
 
 instance (keys : List (Expr × Bool)) (rows : List Row) : Decidable (KeysOk keys rows) := by
   unfold KeysOk; infer_instance
 
+instance (wd : Bool) (a : AggSpec) (rows : List Row) : Decidable (ValsOkAt wd a rows) := by
+  unfold ValsOkAt; infer_instance
+
+instance (a : AggSpec) (rows : List Row) : Decidable (ValsOk a rows) := by
+  unfold ValsOk; infer_instance
+
 /-- stable_sort_chain: the repeated stable sort, last key first, sorts lexicographically -/
 theorem stable_sort_chain (keys : List (Expr × Bool)) (rows : List Row) (h : KeysOk keys rows) :
-    (evalOrderBy keys rows).Perm rows ∧ (evalOrderBy keys rows).Pairwise (fun a b => lexLt keys b a = false) :=
-  ⟨perm_evalOrderBy keys rows, sorted_evalOrderBy keys rows h⟩
+    (evalOrderBy keys rows).Perm rows ∧ (evalOrderBy keys rows).Pairwise (fun a b => lexLt keys b a = false) := by
+  refine ⟨perm_evalOrderBy keys rows, ?_⟩
+  rcases h with h | h
+  · exact sorted_evalOrderBy false keys rows h
+  · exact sorted_evalOrderBy true keys rows h
 
 theorem orderby_spec_partial (keys : List (Expr × Bool)) (rows : List Row) (h : KeysOk keys rows) :
     (evalOrderBy keys rows).Perm rows ∧
     (evalOrderBy keys rows).Pairwise (fun a b => sparqlPrecedes keys b a = false) := by
-  refine ⟨perm_evalOrderBy keys rows, (sorted_evalOrderBy keys rows h).imp ?_⟩
+  refine ⟨perm_evalOrderBy keys rows, (stable_sort_chain keys rows h).2.imp ?_⟩
   intro a b hab
   cases hp : sparqlPrecedes keys b a with
   | false => rfl
@@ -138,6 +154,118 @@ example : evalOrderBy [(.var 0, true), (.var 1, false)] exRows =
     [[some (.num .decimal 2 1), some (.bnode [120])], [some (.num .integer 2 0), some (.str [98] [])],
      [some (.num .integer (-1) 0), some (.str [97] [])], [some (.bool true), none], [none, some (.iri [97])]] := by
   decide +kernel
+
+/-! ### xsd:dateTime / xsd:date sort keys (round g) -/
+
+/-- how rdflib orders temporal keys (`Literal.__gt__` with `_TOTAL_ORDER_CASTERS`, CPython's `datetime` comparison):
+    two xsd:dateTime — the one without timezone first, otherwise chronologically (instants for values with a timezone,
+    local times for values without), two terms of one instant tied; two xsd:date — by proleptic ordinal; and between
+    the classes, whatever the values: boolean < date < dateTime < string (datatype URIs).  `>` (MAX) is the converse. -/
+def Statement_temporal_order : Prop :=
+  (∀ f1 f2 : DTF, keyLt (some (.dateTime f1)) (some (.dateTime f2)) =
+      (if f1.aware ≠ f2.aware then f2.aware else decide (f1.key < f2.key))) ∧
+  (∀ f1 f2 : DF, keyLt (some (.date f1)) (some (.date f2)) = decide (f1.ord < f2.ord)) ∧
+  (∀ (f : DF) (g : DTF), keyLt (some (.date f)) (some (.dateTime g)) = true ∧
+      keyLt (some (.dateTime g)) (some (.date f)) = false) ∧
+  (∀ (b : Bool) (f : DF) (g : DTF) (l lang : Str),
+      keyLt (some (.bool b)) (some (.date f)) = true ∧ keyLt (some (.bool b)) (some (.dateTime g)) = true ∧
+      keyLt (some (.date f)) (some (.str l lang)) = true ∧ keyLt (some (.dateTime g)) (some (.str l lang)) = true) ∧
+  (∀ a b : Val, okKey true a = true → okKey true b = true → keyGt a b = keyLt b a)
+
+theorem temporal_order : Statement_temporal_order := by
+  refine ⟨?_, ?_, ?_, ?_, fun a b ha hb => keyGt_flip true a b ha hb⟩
+  · intro f1 f2
+    by_cases e : f1 = f2
+    · subst e; simp [keyLt]
+    · have h := litLt_eq true (.dateTime f1) (.dateTime f2) rfl rfl rfl rfl
+      simp only [litCls, litInner, ne_eq, not_true_eq_false, if_false] at h
+      have e' : Term.dateTime f1 ≠ Term.dateTime f2 := fun h => e (by injection h)
+      simp only [keyLt, valRank, ne_eq, not_true_eq_false, if_false, e', termLt, h]
+  · intro f1 f2
+    by_cases e : f1 = f2
+    · subst e; simp [keyLt]
+    · have h := litLt_eq true (.date f1) (.date f2) rfl rfl rfl rfl
+      simp only [litCls, litInner, ne_eq, not_true_eq_false, if_false] at h
+      have e' : Term.date f1 ≠ Term.date f2 := fun h => e (by injection h)
+      simp only [keyLt, valRank, ne_eq, not_true_eq_false, if_false, e', termLt, h]
+  · intro f g
+    have h1 := litLt_eq true (.date f) (.dateTime g) rfl rfl rfl rfl
+    have h2 := litLt_eq true (.dateTime g) (.date f) rfl rfl rfl rfl
+    simp only [litCls] at h1 h2
+    constructor
+    · simp only [keyLt, valRank, ne_eq, not_true_eq_false, if_false, reduceCtorEq, termLt, h1]; rfl
+    · simp only [keyLt, valRank, ne_eq, not_true_eq_false, if_false, reduceCtorEq, termLt, h2]; rfl
+  · intro b f g l lang
+    have h1 := litLt_eq true (.bool b) (.date f) rfl rfl rfl rfl
+    have h2 := litLt_eq true (.bool b) (.dateTime g) rfl rfl rfl rfl
+    have h3 := litLt_eq true (.date f) (.str l lang) rfl rfl rfl rfl
+    have h4 := litLt_eq true (.dateTime g) (.str l lang) rfl rfl rfl rfl
+    simp only [litCls] at h1 h2 h3 h4
+    refine ⟨?_, ?_, ?_, ?_⟩
+    · simp only [keyLt, valRank, ne_eq, not_true_eq_false, if_false, reduceCtorEq, termLt, h1]; rfl
+    · simp only [keyLt, valRank, ne_eq, not_true_eq_false, if_false, reduceCtorEq, termLt, h2]; rfl
+    · simp only [keyLt, valRank, ne_eq, not_true_eq_false, if_false, reduceCtorEq, termLt, h3]; rfl
+    · simp only [keyLt, valRank, ne_eq, not_true_eq_false, if_false, reduceCtorEq, termLt, h4]; rfl
+
+/-- the model compares temporal values as points on the time line (`DF.ord` = `_ymd2ord`, `DTF.key` = ordinal, time of
+    day and UTC offset in seconds — what CPython's `self - other` works with); CPython compares two dates, and two
+    dateTimes with the same UTC offset (or both without), as FIELD TUPLES.  On valid field values the two agree, for
+    `<` and for `==`; and an offset only shifts the point. -/
+def Statement_calendar_order : Prop :=
+  (∀ a b : DF, a.valid = true → b.valid = true →
+      decide (a.ord < b.ord) = a.fieldsLt b ∧ (a.ord = b.ord ↔ a = b)) ∧
+  (∀ a b : DTF, a.valid = true → b.valid = true → a.tz = b.tz →
+      decide (a.key < b.key) = a.fieldsLt b ∧ (a.key = b.key ↔ a = b)) ∧
+  (∀ (a : DTF) (z : Int), ({ a with tz := some z } : DTF).key = ({ a with tz := some 0 } : DTF).key - z * 60) ∧
+  (∀ y, 1 ≤ y → daysBeforeYear (y + 1) = daysBeforeYear y + (if isLeap y then 366 else 365))
+
+theorem calendar_order : Statement_calendar_order := by
+  refine ⟨fun a b va vb => ⟨DF.ord_lt_iff a b va vb, fun h => DF.ord_inj a b va vb h, fun h => by rw [h]⟩,
+    fun a b va vb htz => ⟨DTF.key_lt_iff a b va vb htz, fun h => DTF.key_inj a b va vb htz h, fun h => by rw [h]⟩,
+    ?_, fun y hy => dby_succ y hy⟩
+  intro a z
+  simp only [DTF.key, Option.getD_some]
+  omega
+
+example : DTF.valid ⟨2020, 2, 29, 23, 59, 59, none⟩ = true ∧ DTF.valid ⟨2019, 2, 29, 0, 0, 0, none⟩ = false ∧
+    DTF.valid ⟨1900, 2, 29, 0, 0, 0, some 60⟩ = false ∧ DTF.valid ⟨2000, 2, 29, 0, 0, 0, some 60⟩ = true ∧
+    DTF.valid ⟨2020, 1, 1, 24, 0, 0, none⟩ = false ∧ ymd2ord 1 1 1 = 1 ∧ ymd2ord 2020 3 1 = 737485 ∧
+    ymd2ord 9999 12 31 = 3652059 := by decide +kernel
+
+/-- non-vacuity of `orderby_spec_partial` with temporal keys: dateTimes with and without timezone, one instant under
+    two UTC offsets (tied, the second key decides), a date, a decimal, a string, a boolean, unbound -/
+def tRows : List Row :=
+  [[some (.dateTime ⟨2020, 1, 1, 5, 30, 0, some 330⟩), some (.num .integer 2 0)],
+   [some (.str [97] []), none],
+   [some (.dateTime ⟨2020, 1, 1, 0, 0, 0, some 0⟩), some (.num .integer 1 0)],
+   [some (.dateTime ⟨2020, 3, 1, 0, 0, 0, none⟩), none],
+   [some (.num .decimal (3 / 2) 1), none],
+   [some (.date ⟨2020, 2, 29⟩), none],
+   [none, none],
+   [some (.dateTime ⟨2020, 2, 29, 23, 0, 0, some (-60)⟩), none],
+   [some (.dateTime ⟨2020, 2, 29, 23, 59, 59, none⟩), none],
+   [some (.bool true), none]]
+
+example : KeysOk [(.var 0, false), (.var 1, true)] tRows := by decide +kernel
+example : ¬ KeysOkAt false [(.var 0, false), (.var 1, true)] tRows := by decide +kernel
+example : evalOrderBy [(.var 0, false), (.var 1, true)] tRows =
+    [[none, none], [some (.bool true), none], [some (.date ⟨2020, 2, 29⟩), none],
+     [some (.dateTime ⟨2020, 2, 29, 23, 59, 59, none⟩), none], [some (.dateTime ⟨2020, 3, 1, 0, 0, 0, none⟩), none],
+     [some (.dateTime ⟨2020, 1, 1, 5, 30, 0, some 330⟩), some (.num .integer 2 0)],
+     [some (.dateTime ⟨2020, 1, 1, 0, 0, 0, some 0⟩), some (.num .integer 1 0)],
+     [some (.dateTime ⟨2020, 2, 29, 23, 0, 0, some (-60)⟩), none],
+     [some (.num .decimal (3 / 2) 1), none], [some (.str [97] []), none]] := by decide +kernel
+
+/-- known finding C08-K1 once more, the shape that dates add: `"5"^^xsd:byte < date < 1.0` by datatype URI but
+    `1.0 < 5` by value — the reason why `KeysOk` with dates also excludes xsd:byte -/
+def k1RowsByte : List Row :=
+  [[some (.num .decimal 1 1)], [some (.date ⟨2020, 1, 1⟩)], [some (.num .byte 5 0)]]
+
+theorem orderby_spec_witness_byte :
+    ¬ ((evalOrderBy [(.var 0, false)] k1RowsByte).Pairwise (fun a b => sparqlPrecedes [(.var 0, false)] b a = false)) := by
+  decide +kernel
+
+example : ¬ KeysOk [(.var 0, false)] k1RowsByte := by decide +kernel
 
 /-- LIMIT/OFFSET after ORDER BY: exactly that slice of the ordered sequence, itself in order -/
 def Statement_slice_of_ordered : Prop :=
@@ -317,7 +445,8 @@ def Statement_max_spec : Prop :=
 
 theorem min_spec_partial (a : AggSpec) (rows : List Row) (hk : a.kind = .min) (hok : ValsOk a rows) :
     minOk (aggValue a rows) (argVals a rows) = true := by
-  rcases min_inv a hk rows hok with ⟨h1, h2⟩ | ⟨m, h1, h2⟩
+  have hinv := hok.elim (min_inv false a hk rows) (min_inv true a hk rows)
+  rcases hinv with ⟨h1, h2⟩ | ⟨m, h1, h2⟩
   · simp [aggValue, h2, AccSt.value, h1, minOk]
   · simp only [aggValue, h1, AccSt.value, minOk, Bool.and_eq_true, List.contains_eq_mem, decide_eq_true_eq,
       List.all_eq_true, Bool.not_eq_eq_eq_not, Bool.not_true]
@@ -328,7 +457,8 @@ theorem min_spec_partial (a : AggSpec) (rows : List Row) (hk : a.kind = .min) (h
 
 theorem max_spec_partial (a : AggSpec) (rows : List Row) (hk : a.kind = .max) (hok : ValsOk a rows) :
     maxOk (aggValue a rows) (argVals a rows) = true := by
-  rcases max_inv a hk rows hok with ⟨h1, h2⟩ | ⟨m, h1, h2⟩
+  have hinv := hok.elim (max_inv false a hk rows) (max_inv true a hk rows)
+  rcases hinv with ⟨h1, h2⟩ | ⟨m, h1, h2⟩
   · simp [aggValue, h2, AccSt.value, h1, maxOk]
   · simp only [aggValue, h1, AccSt.value, maxOk, Bool.and_eq_true, List.contains_eq_mem, decide_eq_true_eq,
       List.all_eq_true, Bool.not_eq_eq_eq_not, Bool.not_true]
@@ -356,10 +486,17 @@ theorem max_spec_witness :
 example : ValsOk ⟨.min, false, false, .var 0, none, 1⟩ exRows ∧
     aggValue ⟨.min, false, false, .var 0, none, 1⟩ exRows = some (.bool true) ∧
     aggValue ⟨.max, false, false, .var 0, none, 1⟩ exRows = some (.num .integer 2 0) := by
-  refine ⟨?_, by decide +kernel, by decide +kernel⟩
-  intro t ht
-  revert t
-  decide +kernel
+  refine ⟨by decide +kernel, by decide +kernel, by decide +kernel⟩
+
+/-- non-vacuity with temporal values: MIN / MAX over the column of `tRows` -/
+example : ValsOk ⟨.min, false, false, .var 0, none, 2⟩ tRows ∧
+    aggValue ⟨.min, false, false, .var 0, none, 2⟩ tRows = some (.bool true) ∧
+    aggValue ⟨.max, false, false, .var 0, none, 2⟩ tRows = some (.str [97] []) ∧
+    aggValue ⟨.min, false, false, .var 0, none, 2⟩ (tRows.take 1 ++ (tRows.drop 2).take 2) =
+      some (.dateTime ⟨2020, 3, 1, 0, 0, 0, none⟩) ∧
+    aggValue ⟨.max, false, false, .var 0, none, 2⟩ (tRows.take 1 ++ (tRows.drop 2).take 2) =
+      some (.dateTime ⟨2020, 1, 1, 5, 30, 0, some 330⟩) := by
+  refine ⟨by decide +kernel, by decide +kernel, by decide +kernel, by decide +kernel, by decide +kernel⟩
 
 /-- SAMPLE: a value of the group (the first one), unbound iff there is none -/
 def Statement_sample_spec : Prop :=
